@@ -9,6 +9,7 @@ Traces == ndJsonDeserialize(IOEnv.TRACE_FILE)
 VARIABLE i
 G(t, g) == t.glyphs[g + 1]
 PosTags == {"mark", "mkmk", "curs", "abvm", "blwm"}
+AllLangsOf(t) == UNION {Languages(t.F, t.tags[k].tag) : k \in 1..Len(t.tags)}
 AllFeatureTags(t) == {t.F.gpos.features[k].tag : k \in 1..Len(t.F.gpos.features)}
 \* lookups of any feature with tag T (whatever script)
 LookupsOfTag(t, T) == UNION {Rng(t.F.gpos.features[k].lookups) : k \in {k \in 1..Len(t.F.gpos.features) : t.F.gpos.features[k].tag = T}}
@@ -20,20 +21,23 @@ Bearers(lk) == UNION {CASE st.k = "mb" -> {st.bases[k][1] : k \in 1..Len(st.base
                         [] OTHER -> {} : st \in Rng(lk.subs)}
 ActsOn(t, T, script) == \E li \in LookupsOfTag(t, T) : \E g \in Bearers(t.F.gpos.lookups[li + 1]) : script \in Rng(G(t, g).scripts)
 \* EVERY language system of the script (the default one and each LangSysRecord) is examined
-MissingIn(t, k, T) == {lang \in Languages(t.F, t.tags[k].tag) :
-                         /\ FeatureTags(t.F, t.tags[k].tag, lang) \cap {"kern", "dist"} # {}
-                         /\ T \notin FeatureTags(t.F, t.tags[k].tag, lang)}
-Missing(t) == {<<k, T>> \in (1..Len(t.tags)) \X (PosTags \cap AllFeatureTags(t)) :
+Missing(t) == {x \in (1..Len(t.tags)) \X (PosTags \cap AllFeatureTags(t)) \X AllLangsOf(t) :
+                 LET k == x[1]  T == x[2]  lang == x[3] IN
                  /\ t.tags[k].tag # "DFLT"
+                 /\ lang \in Languages(t.F, t.tags[k].tag)
                  /\ ActsOn(t, T, t.tags[k].script)
-                 /\ MissingIn(t, k, T) # {}}
+                 /\ FeatureTags(t.F, t.tags[k].tag, lang) \cap {"kern", "dist"} # {}
+                 /\ T \notin FeatureTags(t.F, t.tags[k].tag, lang)}
+DeclaredPair(t, tag, lang) == \E j \in 1..Len(t.declaredPairs) : t.declaredPairs[j][1] = tag /\ t.declaredPairs[j][2] = lang
 \* all language systems of one script expose the same generated positioning features (kerning included)
 GenTags == PosTags \cup {"kern", "dist"}
-LangsAgree(t) == \A k \in 1..Len(t.tags) : \A l1, l2 \in Languages(t.F, t.tags[k].tag) :
+\* (language systems the feature file DECLARES; one that only the kern writer's registration created is finding F-C20-1)
+LangsAgree(t) == \A k \in 1..Len(t.tags) : \A l1, l2 \in {l \in Languages(t.F, t.tags[k].tag) : DeclaredPair(t, t.tags[k].tag, l)} :
                     FeatureTags(t.F, t.tags[k].tag, l1) \cap GenTags = FeatureTags(t.F, t.tags[k].tag, l2) \cap GenTags
-\* Known finding F-C20-1: the script is not named by a languagesystem statement although the font EXPORTS a glyph with a
+\* Known finding F-C20-1: the (script, language) system is not named by a languagesystem statement -- the kern writer registers
+\* its lookups under the script's default language system regardless -- although the font EXPORTS a glyph with a
 \* code point that belongs to that script alone (that is how the kern writer legitimately learns about the script)
-Known(t, x) == /\ t.tags[x[1]].tag \notin Rng(t.declared)
+Known(t, x) == /\ ~DeclaredPair(t, t.tags[x[1]].tag, x[3])
                /\ \E g \in 0..(t.n - 1) : t.tags[x[1]].script \in Rng(G(t, g).single)
 Init == i = 1
 Next == /\ i <= Len(Traces)
